@@ -32,7 +32,15 @@ type EthNode struct {
 	// outcome of the next transactions: "" accept, otherwise the JSON-RPC error text;
 	// "nonce:<text>" fails eth_getTransactionCount instead
 	TxOutcome func(n int) string
-	RawTxs    [][]byte
+	// answer to the proxy contract's getters (eth_call): "" a value, otherwise the error text
+	ReadOutcome func() string
+	ReadCalls   int
+	// Chain, when set, is the account state this endpoint is a view of (shared by the endpoints of a
+	// rig): eth_getTransactionCount answers its nonce after NonceDelay, and a transaction whose nonce
+	// is not the next one is rejected the way geth rejects it
+	Chain      *Chain
+	NonceDelay time.Duration
+	RawTxs     [][]byte
 	firstTxAt time.Time
 	NonceAsk  int
 	subs      map[rpc.ID]*logSub
@@ -43,6 +51,19 @@ type EthNode struct {
 	wsLn      net.Listener
 	httpLn    net.Listener
 	wsConns   []net.Conn
+}
+
+// Chain is the sender account's state on the chain all endpoints of a rig look at.
+type Chain struct {
+	mu       sync.Mutex
+	Next     uint64   // next nonce
+	Accepted []uint64 // nonces of the accepted transactions, in order of acceptance
+}
+
+func (c *Chain) Snapshot() (uint64, []uint64) {
+	c.mu.Lock()
+	defer c.mu.Unlock()
+	return c.Next, append([]uint64{}, c.Accepted...)
 }
 
 type logSub struct {
@@ -91,6 +112,18 @@ func (a *ethAPI) Call(args callArgs, block interface{}) (hexutil.Bytes, error) {
 	if args.To == nil || len(data) < 4 {
 		return nil, errors.New("execution reverted")
 	}
+	if *args.To == a.n.Proxy {
+		a.n.mu.Lock()
+		ro := a.n.ReadOutcome
+		a.n.ReadCalls++
+		a.n.mu.Unlock()
+		if ro != nil {
+			if txt := ro(); txt != "" {
+				return nil, errors.New(txt)
+			}
+			return common.LeftPadBytes([]byte{3}, 32), nil
+		}
+	}
 	if *args.To == a.n.Bridge {
 		switch string(data[:4]) {
 		case selector("getProxyAddress()"):
@@ -105,6 +138,25 @@ func (a *ethAPI) Call(args callArgs, block interface{}) (hexutil.Bytes, error) {
 }
 
 func (a *ethAPI) GetTransactionCount(addr common.Address, block interface{}) (hexutil.Uint64, error) {
+	a.n.mu.Lock()
+	ch, delay := a.n.Chain, a.n.NonceDelay
+	a.n.mu.Unlock()
+	if ch != nil {
+		ch.mu.Lock()
+		v := ch.Next
+		ch.mu.Unlock()
+		time.Sleep(delay) // the answer is already on its way: what the caller learns is the state at the time of the question
+		a.n.mu.Lock()
+		a.n.NonceAsk++
+		if a.n.TxOutcome != nil {
+			if o := a.n.TxOutcome(len(a.n.RawTxs)); strings.HasPrefix(o, "nonce:") {
+				a.n.mu.Unlock()
+				return 0, errors.New(strings.TrimPrefix(o, "nonce:"))
+			}
+		}
+		a.n.mu.Unlock()
+		return hexutil.Uint64(v), nil
+	}
 	a.n.mu.Lock()
 	defer a.n.mu.Unlock()
 	a.n.NonceAsk++
@@ -132,6 +184,18 @@ func (a *ethAPI) SendRawTransaction(raw hexutil.Bytes) (common.Hash, error) {
 	tx := new(types.Transaction)
 	if err := tx.UnmarshalBinary(raw); err != nil {
 		return common.Hash{}, err
+	}
+	if ch := a.n.Chain; ch != nil {
+		ch.mu.Lock()
+		defer ch.mu.Unlock()
+		if tx.Nonce() < ch.Next {
+			return common.Hash{}, errors.New("nonce too low")
+		}
+		if tx.Nonce() > ch.Next {
+			return tx.Hash(), nil // queued, never mined: not an accepted transaction
+		}
+		ch.Accepted = append(ch.Accepted, tx.Nonce())
+		ch.Next++
 	}
 	return tx.Hash(), nil
 }
@@ -237,6 +301,8 @@ func (n *EthNode) Reset() {
 	n.RawTxs = nil
 	n.NonceAsk = 0
 	n.TxOutcome = nil
+	n.ReadOutcome = nil
+	n.ReadCalls = 0
 }
 
 // Txs returns the raw transactions received so far.
